@@ -15,6 +15,7 @@ format_mesen_mlb (directly and through driver::format_output).  Per text, three 
 Plus sensitivity controls: damaged texts and the pre-F53 model text must be REJECTED by the extracted checker."""
 import vlib
 import c12_gen
+import asm_gen, asm2_gen
 
 BASES = [2, 4, 8, 16, 32, 64, 128]
 GROUPS = [1, 2, 3, 4, 5, 7, 8, 16]
@@ -309,6 +310,91 @@ def damage(rng, kind, text, info):
     return None
 
 
+# ------------------------------------------------------------------ pipeline stream (Resolver2 model)
+PIPE_UNITS = [3, 5, 6, 7, 12, 24, 12, 3, 8, 16, 1, 4]
+
+
+def gen_pipe_prog(rng):
+    """a Prog2 (tools/asm2_gen.py) over 1-3 banks with mostly non-power-of-two units, #outp != 0, gaps between the
+    windows, #fill, #res, forward and BACKWARD #addr (into a hole left earlier), labels directly before items, a
+    trailing item that is not a whole number of units; banks visited in shuffled order and revisited"""
+    p = asm2_gen.Prog2(asm_gen.Isa())
+    p.kind = "pipe"
+    it = p.items
+    nb = rng.range(1, 3)
+    banks = []
+    outp = rng.choice([0, 8, 5, 64, 0])
+    for i in range(nb):
+        u = rng.choice(PIPE_UNITS)
+        a = rng.choice([0, 0x10, 0x100, 0x8000, 7])
+        size = rng.choice([0x40, 0x30, 0x80])
+        f = {"bits": str(u), "addr": "0x%x" % a, "size": "0x%x" % size, "outp": str(outp)}
+        if rng.chance(0.3):
+            f["fill"] = True
+        if rng.chance(0.15):
+            f["labelalign"] = str(u * rng.choice([1, 2]))
+        outp += size * u + rng.choice([0, 0, 3, 8, 64])
+        banks.append({"name": "pk%d" % i, "u": u, "a": a, "size": size, "next": 0, "hole": None, "closed": False})
+        it.append(("bankdef", "pk%d" % i, f))
+    visits = rng.shuffle(list(range(nb)))
+    if nb > 1 and rng.chance(0.7):
+        visits.append(rng.choice(visits))
+    nl = 0
+    for v in visits:
+        b = banks[v]
+        if b["closed"]:
+            continue
+        it.append(("bank", b["name"]))
+        u = b["u"]
+        for _ in range(rng.range(1, 4)):
+            k = rng.weighted([("data", 5), ("label", 4), ("res", 2), ("fwd", 2), ("back", 2), ("odd", 1)])
+            room = b["size"] - b["next"]
+            if room < 12:
+                break
+            if k == "label":
+                nl += 1
+                it.append(("label", "p%d" % nl, 0))
+                if rng.chance(0.7):
+                    it.append(("data", u * rng.choice([1, 2]), [str(rng.below(1 << u))])); b["next"] += 2
+            elif k == "data":
+                n = rng.range(1, 3)
+                it.append(("data", u, [str(rng.below(1 << u)) for _ in range(n)])); b["next"] += n
+            elif k == "res":
+                n = rng.range(0, 3)
+                it.append(("res", str(n))); b["next"] += n
+            elif k == "fwd":
+                skip = rng.range(2, 5)
+                if b["hole"] is None:
+                    b["hole"] = (b["next"], skip)
+                b["next"] += skip
+                it.append(("addr", "0x%x" % (b["a"] + b["next"])))
+            elif k == "back" and b["hole"] is not None:
+                h, n = b["hole"]
+                b["hole"] = None
+                resume = b["next"]
+                it.append(("addr", "0x%x" % (b["a"] + h)))
+                nl += 1
+                it.append(("label", "p%d" % nl, 0))
+                it.append(("data", u, [str(rng.below(1 << u)) for _ in range(rng.range(1, n))]))
+                it.append(("addr", "0x%x" % (b["a"] + resume)))
+            elif k == "odd":
+                it.append(("data", u + rng.range(1, max(1, u - 1)) if u > 1 else 1, ["1"]))
+                b["next"] += 2
+                b["closed"] = True          # the position is no longer a whole number of units: nothing but data may follow
+                it.append(("data", 1, ["1"]))
+                break
+    p.names = ["p%d" % i for i in range(1, nl + 1)]
+    return p
+
+
+def model_spans_banks(ans):
+    f = ans.split("\t")
+    if f[0] != "OK":
+        return f[0], None, None
+    cm = asm2_gen.canon_model(ans)
+    return "OK", cm[5], tuple((b[0], b[1], b[4], b[3]) for b in cm[4])
+
+
 # ------------------------------------------------------------------ the check
 def requests_for(rng):
     reqs = []
@@ -364,8 +450,27 @@ def run(chk):
         g = rp.fork("p%d" % i)
         t, e, tags = c12_gen.gen_program(g)
         progs.append((t, e, tags, requests_for(g), "programs"))
+    # pipeline stream: Prog2 programs (directed bank family + the bank programs of the Resolver2 streams)
+    rq = chk.rng.fork("pipe")
+    pipe = {}      # index into progs -> Prog2
+    for i in range(600 if quick else 6000):
+        g = rq.fork("q%d" % i)
+        if i % 3 == 2:
+            p2 = asm2_gen.gen_prog2(g)
+            # (the `edge` family aims at usize overflow in the cursor arithmetic: findings F48 / F61 of C06, not listings)
+            while not p2.stats().get("bankdef", 0) or p2.kind == "edge":
+                p2 = asm2_gen.gen_prog2(g)
+        else:
+            p2 = gen_pipe_prog(g)
+        pipe[len(progs)] = p2
+        progs.append((p2.text(), {}, ["pipeline"], [("a", g.choice(BASES), g.choice(GROUPS)), ("s", 0, 0), ("y", 0, 0)], "pipeline"))
     lines = [impl_line(t, e, r) for (t, e, _, r, _) in progs]
     res = {p: vlib.run_lines([bins[p] + "/listing"], lines) for p in ("debug", "release")}
+    vlib.extraction("ExResolver2")
+    asm2_exe = vlib.ocaml_build("asm2_driver", ["resolver2_model"])
+    pidx = sorted(pipe)
+    pres2 = dict(zip(pidx, vlib.run_lines(["sh", "-c", "ulimit -s 1000000 2>/dev/null; exec " + asm2_exe],
+                                          [pipe[i].model_line(10, True) for i in pidx])))
 
     # ---- collect the (program, request) cases
     cases = []     # dict per case
@@ -396,6 +501,48 @@ def run(chk):
             tagdist["tag_" + tg] = tagdist.get("tag_" + tg, 0) + 1
         for ri, rq in enumerate(reqs):
             cases.append({"pi": pi, "rq": rq, "info": info, "out": info["outs"][ri], "rep": rep, "tags": ptags, "stream": stream})
+
+    # ---- pipeline: spans and banks of the implementation == spans and banks of the extracted Resolver2 model
+    npipe = {"ok": 0, "err": 0, "nonpow2": 0, "several_banks": 0, "outp_nonzero": 0, "fill": 0}
+    for pi in pidx:
+        d = res["debug"][pi]
+        if d != res["release"][pi]:
+            continue                              # reported above
+        mcls, mspans, mbanks = model_spans_banks(pres2[pi])
+        head = d.split("\t", 1)[0]
+        rep = {"kind": "pipeline", "main": progs[pi][0], "files": {}, "requests": ["a:16:2", "s"], "impl_line": lines[pi],
+               "model_line": pipe[pi].model_line(10, True), "model": pres2[pi][:3000]}
+        if head not in ("OK", "ERR"):
+            continue                              # crash: reported above
+        if head == "ERR" or mcls != "OK":
+            npipe["err"] += 1
+            if (head == "OK") != (mcls == "OK"):
+                ndis_pipe = True
+                chk.violation("pipeline correspondence: implementation says %s, extracted Resolver2 model says %s" % (head, mcls),
+                              dict(rep, theorems=["C12_pipeline_addresses", "C12_pipeline_one_item"]), found=False)
+            continue
+        info = parse_answer(d)
+        npipe["ok"] += 1
+        ispans = tuple((s_["off"], s_["size"], s_["addr"]) for s_ in info["spans"])
+        ibanks = tuple((b["addr"], b["unit"], b["outp"], b["size"]) for b in info["banks"])
+        ub = [b for b in info["banks"] if b["index"] != 0]
+        if any(b["unit"] & (b["unit"] - 1) for b in ub):
+            npipe["nonpow2"] += 1
+        if len(ub) > 1:
+            npipe["several_banks"] += 1
+        if any(b["outp"] for b in ub):
+            npipe["outp_nonzero"] += 1
+        if "fill" in progs[pi][0]:
+            npipe["fill"] += 1
+        chk.nontriv((pi, "pipeline"))
+        if ispans != mspans or ibanks != mbanks:
+            # which side is wrong?  the address specification decides it for the implementation's spans (stream below)
+            chk.violation("pipeline correspondence: the spans / banks of the implementation differ from those of the extracted "
+                          "Resolver2 model (theorems C12_pipeline_* speak about the model's): impl %s | model %s" % (
+                              str(ispans)[:200], str(mspans)[:200]),
+                          dict(rep, impl_spans=info["spans_wire"][:3000], impl_banks=info["banks_wire"],
+                               theorems=["C12_pipeline_addresses", "C12_pipeline_one_item"]), found=False)
+    chk.count("pipeline_spans", len(pidx), **npipe)
 
     # ---- the addresses the spans carry (and every listing therefore prints) against the bank layout
     okprogs = sorted(set(c["pi"] for c in cases))
